@@ -59,6 +59,12 @@ from ..servers import make_env, scratch_root
 _B64 = b'ABCDEFGHIJKLMNOPQRSTUVWXYZabcdefghijklmnopqrstuvwxyz0123456789+,'
 
 
+
+def ascii_upper(s: str) -> str:
+    """Upper case of an all-ASCII name; INBOX is case-insensitive in its
+    ASCII letters only (str.upper() maps U+0131 to I)."""
+    return s.upper() if s.isascii() else s
+
 class MUtf7Error(ValueError):
     pass
 
@@ -834,17 +840,17 @@ def gen_unicode_name(rng: random.Random, maxlen: int, backend: str) -> str:
     if backend != 'dict':
         # the Maildir++ layout maps '.' to the hierarchy on disk (C11)
         comps = [c.replace('.', '_') for c in comps]
-    if comps[0].upper() == 'INBOX':
+    if ascii_upper(comps[0]) == 'INBOX':
         comps[0] = 'x' + comps[0]
     return '/'.join(comps)
 
 
 def name_ok(name: str) -> bool:
     """Names this property owns (see module docstring)."""
-    if not name or name.upper() == 'INBOX':
+    if not name or ascii_upper(name) == 'INBOX':
         return False
     comps = name.split('/')
-    if comps[0].upper() == 'INBOX':
+    if ascii_upper(comps[0]) == 'INBOX':
         return False
     for c in comps:
         if not c or c in ('.', '..') or c != c.strip(' '):
